@@ -156,17 +156,6 @@ def _resolve_pick(pick: int, names: typing.List[str]) -> typing.Optional[str]:
     return names[pick % len(names)]
 
 
-def _sig_kind(path: str) -> str:
-    """A coarse, stable classification of a generated file for signatures: support / namespace / type."""
-    base = os.path.basename(path)
-    if "/support/" in "/" + path or base.startswith("nunavut_support") or path.startswith("nunavut/"):
-        return "support"
-    stem = os.path.splitext(base)[0]
-    if stem in ("_namespace_", "__init__", "index", "_"):
-        return "namespace"
-    return "type"
-
-
 def run_case(case: dict, ctx: dict) -> dict:
     sandbox = os.path.join(ctx["scratch"], "disk")
     os.makedirs(sandbox)
@@ -321,25 +310,25 @@ def run_case(case: dict, ctx: dict) -> dict:
                 if changed:
                     p0 = changed[0]
                     violation(
-                        "no-overwrite-modified:%s" % _sig_kind(p0),
+                        "no-overwrite-modified:%s" % nnvg.sig_kind(p0),
                         dict(short, changed=changed[:5], before=pre[p0][:3], after=(post.get(p0) or ("gone",))[:3]),
                     )
                 if overlap and ok:
-                    violation("no-overwrite-conflict-not-reported:%s" % _sig_kind(overlap[0]), dict(short, conflict=overlap[:5]))
+                    violation("no-overwrite-conflict-not-reported:%s" % nnvg.sig_kind(overlap[0]), dict(short, conflict=overlap[:5]))
                 if overlap:
                     bump("probes", "no_overwrite_conflict")
             # (b) a run that reports success leaves exactly the reference bytes and the requested modes
             if ok:
                 for p in sorted(ref["files"]):
                     if p not in post_files:
-                        violation("success-missing-file:%s" % _sig_kind(p), dict(short, path=p))
+                        violation("success-missing-file:%s" % nnvg.sig_kind(p), dict(short, path=p))
                         break
                     if post_files[p][0] != ref["files"][p][0]:
-                        violation("success-wrong-bytes:%s" % _sig_kind(p), dict(short, path=p, had_before=p in pre_files))
+                        violation("success-wrong-bytes:%s" % nnvg.sig_kind(p), dict(short, path=p, had_before=p in pre_files))
                         break
                     if post_files[p][1] != (want_mode & 0o7777) or ref["files"][p][1] != (want_mode & 0o7777):
                         violation(
-                            "success-wrong-mode:%s" % _sig_kind(p),
+                            "success-wrong-mode:%s" % nnvg.sig_kind(p),
                             dict(short, path=p, mode=oct(post_files[p][1]), ref_mode=oct(ref["files"][p][1]), want=oct(want_mode)),
                         )
                         break
@@ -347,7 +336,7 @@ def run_case(case: dict, ctx: dict) -> dict:
             if fault is None and not opts.get("no_overwrite") and not ok:
                 first = overlap[0] if overlap else ""
                 violation(
-                    "no-progress:%s:%s" % (res["status"], _sig_kind(first) if first else "clean"),
+                    "no-progress:%s:%s" % (res["status"], nnvg.sig_kind(first) if first else "clean"),
                     dict(short, pre_modes={p: oct(pre_files[p][1]) for p in overlap[:6]}),
                 )
             trace_key.append(
@@ -398,7 +387,7 @@ def run_case(case: dict, ctx: dict) -> dict:
             elif kind == "remove":
                 os.remove(p)
             bump("ops", kind)
-            trace_key.append("%s|%s|%s" % (kind, _sig_kind(path), op.get("mode", op.get("size", ""))))
+            trace_key.append("%s|%s|%s" % (kind, nnvg.sig_kind(path), op.get("mode", op.get("size", ""))))
         executed.append(op)
         states.append(snapshot.digest(snapshot.snapshot(out, with_mtime=False)))
 
@@ -472,21 +461,4 @@ def reductions(case: dict) -> typing.Iterator[dict]:
         c["world"] = {"umask": 0o022, "buffering": None}
         yield c
     # drop DSDL files nobody refers to
-    yield from reduce_dsdl(case)
-
-
-def reduce_dsdl(case: dict) -> typing.Iterator[dict]:
-    files = case["dsdl"]["files"]
-    if len(files) <= 1:
-        return
-    for rel in sorted(files, reverse=True):
-        parts = rel.split("/")
-        fn = parts[-1].split(".")
-        if fn[0].isdigit():
-            fn = fn[1:]
-        ref = ".".join(parts[:-1] + [fn[0]]) + ".%s.%s" % (fn[1], fn[2])
-        if any(ref in txt for other, txt in files.items() if other != rel):
-            continue
-        c = dict(case)
-        c["dsdl"] = {"roots": case["dsdl"]["roots"], "files": {k: v for k, v in files.items() if k != rel}}
-        yield c
+    yield from nnvg.reduce_dsdl(case)
